@@ -27,12 +27,12 @@ CONSTANTS Threads, Progs,        \* Progs: set of candidate program assignments 
           Shared, SetOnAllPaths, ClearOnError, CopyOnConstruct
 
 \* ---- the document pool ----
-DocIds == {"plain", "colA", "colB", "multi", "fig", "fail", "share2", "share3", "paged", "pagedfn", "pagedhdr"}
+DocIds == {"plain", "colA", "colB", "multi", "fig", "fail", "share2", "share3", "paged", "pagedfn", "pagedhdr", "multi13"}
 Pal(dd) == CASE dd = "colA" -> {26, 552} [] dd = "colB" -> {100, 300, 652} [] dd = "multi" -> {26, 100}
             [] dd = "fig" -> {552} [] dd = "fail" -> {300} [] dd = "paged" -> {26, 552} [] OTHER -> {}
 Uses(dd) == CASE dd = "colA" -> <<552, 26, 552>> [] dd = "colB" -> <<652, 100, 300>> [] dd = "multi" -> <<100, 26>>
              [] dd = "fig" -> <<552>> [] dd = "fail" -> <<300>> [] dd = "paged" -> <<26, 552, 26, 552>> [] OTHER -> <<>>
-Path(dd) == CASE dd = "multi" -> "multi" [] dd = "fig" -> "figure" [] OTHER -> "single"
+Path(dd) == CASE dd \in {"multi", "multi13"} -> "multi" [] dd = "fig" -> "figure" [] OTHER -> "single"
 Fails(dd) == dd = "fail"
 NCols(dd) == CASE dd = "share2" -> 2 [] dd = "share3" -> 3 [] OTHER -> 0
 SharesBody(dd) == dd \in {"share2", "share3"}
